@@ -177,3 +177,5 @@ pub proof fn lemma_resolve_empty()
 pub open spec fn resolve_post(r: Option<FixtureDefinition>, ds: Seq<DefV>, file: PV, prov: spec_fn(PV) -> bool, fs: spec_fn(DefV) -> bool) -> bool {
     opt_dv(r) == op_resolve(ds, file, prov, fs)
 }
+
+pub open spec fn opt_ref_dv(o: Option<&FixtureDefinition>) -> Option<DefV> { match o { Some(d) => Some(dv(d)), None => None } }
